@@ -3,21 +3,17 @@ import DirectVerif.Model.Complex
 namespace DirectVerif.Driver.C02
 open DirectVerif DirectVerif.Driver DirectVerif.Cx
 
-/-- real-layout integer tensor `(…, 2)` → complex tensor over `Rat` -/
-def toCx (shape data : List Int) : Except String (Tensor (Cpx Rat)) :=
-  match mkT shape data with
-  | none => .error "BadOp"
-  | some t =>
-    if t.shape.getLast? ≠ some 2 then .error "AssertionError" else
-    let rec pairs : List Int → List (Cpx Rat)
-      | a :: b :: rest => ⟨(a : Rat), (b : Rat)⟩ :: pairs rest
-      | _ => []
-    .ok ⟨t.shape.dropLast, pairs t.data⟩
-
 def toReal (shape data : List Int) : Except String (Tensor Rat) :=
   match mkT shape data with
   | none => .error "BadOp"
   | some t => .ok ⟨t.shape, t.data.map fun (v : Int) => (v : Rat)⟩
+
+/-- real-layout integer tensor `(…, 2)` → complex tensor over `Rat` (the model's `viewAsComplex`) -/
+def toCx (shape data : List Int) : Except String (Tensor (Cpx Rat)) := do
+  let t ← toReal shape data
+  match viewAsComplex t with
+  | none => .error "AssertionError"
+  | some z => .ok z
 
 def fmtRats (shape : List Nat) (qs : List Rat) : String :=
   let nums := qs.map (·.num)
@@ -26,7 +22,8 @@ def fmtRats (shape : List Nat) (qs : List Rat) : String :=
 
 def fmtCx (t : Tensor (Cpx Rat)) : String :=
   if !t.wellFormed then "err RuntimeError" else
-  fmtRats (t.shape ++ [2]) (t.data.flatMap fun z => [z.re, z.im])
+  let r := viewAsReal t
+  fmtRats r.shape r.data
 
 def fmtReal (t : Tensor Rat) : String :=
   if !t.wellFormed then "err RuntimeError" else fmtRats t.shape t.data
@@ -44,7 +41,7 @@ def opMM (a b : Tensor (Cpx Rat)) : Except String (Tensor (Cpx Rat)) :=
   match a.shape, b.shape with
   | [n, m], [m', p] =>
     if m ≠ m' then .error "RuntimeError" else
-    .ok ⟨[n, p], (cmm (rows n m a.data) (rows m p b.data)).flatten⟩
+    .ok ⟨[n, p], (cmm p (rows n m a.data) (rows m p b.data)).flatten⟩
   | _, _ => .error "RuntimeError"
 
 def opBMM (a b : Tensor (Cpx Rat)) : Except String (Tensor (Cpx Rat)) :=
@@ -53,7 +50,7 @@ def opBMM (a b : Tensor (Cpx Rat)) : Except String (Tensor (Cpx Rat)) :=
     if m ≠ m' ∨ ba ≠ bb then .error "RuntimeError" else
     let As := rows ba (n * m) a.data
     let Bs := rows bb (m * p) b.data
-    .ok ⟨[ba, n, p], (List.zipWith (fun x y => (cmm (rows n m x) (rows m p y)).flatten) As Bs).flatten⟩
+    .ok ⟨[ba, n, p], (List.zipWith (fun x y => (cmm p (rows n m x) (rows m p y)).flatten) As Bs).flatten⟩
   | _, _ => .error "RuntimeError"
 
 def run (r : Except String String) : String :=
@@ -118,6 +115,14 @@ def step (op : String) (gs : List (List Int)) : String :=
     if !prod.wellFormed then throw "RuntimeError"
     if !(inRange prod.shape.length d) then throw "IndexError"
     return fmtCx (reduceOp y s d)
+  | "tcn", [sa, da] => run do          -- tensor_to_complex_numpy: shape | real parts | imaginary parts
+    let z ← toCx sa da
+    return okG [z.shape.map Int.ofNat, z.data.map (·.re.num), z.data.map (·.im.num)]
+  | "vrt", [sa, da] => run do          -- view_as_real (view_as_complex x)
+    let a ← toReal sa da
+    match viewAsComplex a with
+    | none => throw "RuntimeError"
+    | some z => return fmtReal (viewAsReal z)
   | _, _ => "err BadOp"
 
 end DirectVerif.Driver.C02
